@@ -8,7 +8,7 @@ checks = {
  "C04": ("exploration", "generated models x objective views x procedures; optimum vs brute force", "Optimal/Unsatisfiable and every callback solution are judged against the brute-force optimum for both procedures, both directions and view objectives.", "DESIGN 4/C04"),
  "C05": ("exploration", "generated assumption sequences; S_A and core checks by brute force", "Solutions, UnsatisfiableUnderAssumptions, cores (implied by assumptions, inconsistent with the model) and retention of assumptions are judged by enumeration over sequences of solves on one solver.", "DESIGN 4/C05"),
  "C06": ("translation_validation", "every DRCP proof emitted on generated models is re-checked by the harness's own DRCP checker", "Each proof produced while solving / optimising a generated model is parsed and checked step by step: tagged inferences by reverse propagation against the semantics of the tagged constraint (explicit domains, harness/src/props/proof.rs), nogoods by reverse unit propagation over earlier steps, and the conclusion (UNSAT / dual bound) against the verdict and the brute-force optimum. Each run validates the proofs it saw; it is not a proof about all proofs.", "DESIGN 4/C06"),
- "C07": ("exploration", "one model x >=8 configurations; each vs exhaustive reference", "Each configuration's iterated solution set and optimum must equal the exhaustive reference (stronger than pairwise agreement); thresholds are generated small so restarts and nogood deletion run on tiny instances.", "DESIGN 4/C07"),
+ "C07": ("exploration", "one model x 10 configurations (7 fixed incl. a brancher-stress one, 3 generated); each vs exhaustive reference", "Each configuration's iterated solution set and optimum must equal the exhaustive reference (stronger than pairwise agreement); thresholds are generated small so restarts and nogood deletion run on tiny instances.", "DESIGN 4/C07"),
  "C08": ("exploration", "cumulative task sets x CumulativeOptions sweep; iterated set vs definition", "Solution sets under 8 (quick) / all 144 (thorough) option combinations are compared with the definitional solution set.", "DESIGN 4/C08"),
  "C09": ("exploration", "all constraint kinds x implied_by/reify/negation; iterated set vs implication/equivalence semantics", "Solution sets over (variables, literal) are compared with the reference defined by implication / equivalence / complement.", "DESIGN 4/C09"),
  "C10": ("exploration", "model-based stateful testing of API call sequences", "Operation sequences are interpreted against a reference model which accumulates constraints, blocking clauses and objective cuts; every result is judged by brute force.", "DESIGN 4/C10"),
@@ -41,7 +41,7 @@ m = {
    {"name": "pv-fuzz", "path": "harness/fuzz/", "serves_properties": ["C01", "C02", "C03", "C04", "C05", "C06", "C07", "C09", "C10", "C11", "C12", "C16", "C17", "C18"], "kind_free_text": "cargo-fuzz / libFuzzer target (thorough tier only, started by fuzz.sh from run.sh): the fuzzer's bytes drive the property's own proptest strategy through proptest's pass-through RNG, the property's oracle judges the case, a violation is written as a replay file in the same format as the proptest campaigns"},
  ],
  "checks": [],
- "notes": "The thorough tier of the in-process properties runs a libFuzzer stage first (VERIF_FUZZ_RUNS runs x VERIF_FUZZ_JOBS processes) and then the proptest campaign. Every command rebuilds the harness (and pumpkin-solver with it) from /repo's working tree; exit 0 held / 1 violation (VIOLATION line) / 2 harness problem, generator-health or watchdog (inconclusive). known_findings.jsonl lists recorded findings and fixed defects; see DESIGN.md.",
+ "notes": "The thorough tier of the in-process properties runs a libFuzzer stage first (VERIF_FUZZ_RUNS runs or VERIF_FUZZ_SECS seconds x VERIF_FUZZ_JOBS processes) and then the proptest campaign. Every command rebuilds the harness (and pumpkin-solver with it) from /repo's working tree; exit 0 held / 1 violation (VIOLATION line) / 2 harness problem, generator-health or watchdog (inconclusive). known_findings.jsonl lists recorded findings and fixed defects; see DESIGN.md.",
  "not_applicable": [{"property_id": p, "reason": "check not built yet in this round (planned, see DESIGN.md)"} for p in pending],
 }
 for pid,(cat,tech,text,ref) in sorted(checks.items()):
